@@ -16,10 +16,10 @@ EXTENDS Lattice, Chars, UnicodeGlyphs
 cSP == 32  cDASH == 45  cTILDE == 126  cBAR == 124  cCOLON == 58  cBANG == 33
 cPLUS == 43  cDOT == 46  cAPOS == 39  cCOMMA == 44  cBQUOTE == 96  cUNDER == 95  cEQ == 61
 cSLASH == 47  cBSLASH == 92  cLPAR == 40  cRPAR == 41
-cGT == 62  cLT == 60  cCARET == 94  cv == 118  cV == 86  cSTAR == 42  co == 111  cO == 79  cX == 88
+cGT == 62  cLT == 60  cCARET == 94  cv == 118  cV == 86  cSTAR == 42  co == 111  cO == 79  cX == 88  cHASH == 35
 
 Modelled == {cSP, cDASH, cTILDE, cBAR, cCOLON, cBANG, cPLUS, cDOT, cAPOS, cCOMMA, cBQUOTE, cUNDER, cEQ,
-             cSLASH, cBSLASH, cLPAR, cRPAR, cGT, cLT, cCARET, cv, cV, cSTAR, co, cO, cX} \cup UnicodeChars
+             cSLASH, cBSLASH, cLPAR, cRPAR, cGT, cLT, cCARET, cv, cV, cSTAR, co, cO, cX, cHASH} \cup UnicodeChars
 
 G(gx, gy) == <<gx * 2, gy * 4>>
 pa == G(0,0) pb == G(1,0) pc == G(2,0) pd == G(3,0) pe == G(4,0)
@@ -39,6 +39,8 @@ Arc(p1, p2, rad) == IF PLe(p1, p2) THEN [k |-> "A", s |-> p1, e |-> p2, r |-> ra
 U2 == 4  U4 == 8  U6 == 12  U8 == 16  U16 == 32  B12 == 3
 \* a small circle (bullet): centre, radius, filled
 Circ(p, rad, filled) == [k |-> "C", c |-> p, r |-> rad, f |-> filled]
+\* a filled box inside a cell (square bullet, block glyphs)
+FilledBox(p1, p2) == [k |-> "R", s |-> p1, e |-> p2, r |-> 0, b |-> FALSE, f |-> TRUE]
 \* a filled polygon (arrowhead): the sequence of its vertices
 Poly(pts) == [k |-> "P", pts |-> pts]
 AdjX(p, h) == <<p[1] + h, p[2]>>          \* adjust_x(h / 2): half a quarter-cell is one lattice unit
@@ -75,6 +77,8 @@ Sig(ch) ==
     [] ch = cGT    -> << <<MEDIUM, <<Poly(<<pf, po, pp>>)>> >> >>
     [] ch = cLT    -> << <<MEDIUM, <<Poly(<<pj, pk, pt>>)>> >> >>
     [] ch = cX     -> << <<STRONG, <<Line(pa, py), Line(pu, pe)>> >> >>
+    [] ch = cHASH  -> << <<STRONG, <<FilledBox(pf, pt)>> >>, <<MEDIUM, <<Line(pc, pw), Line(pk, po)>> >>,
+                         <<WEAK, <<Line(pa, py), Line(pu, pe)>> >> >>
     [] ch = cSTAR  -> << <<STRONG, <<Circ(pm, 3, TRUE)>> >>, <<MEDIUM, <<Line(pc, pw), Line(pk, po)>> >>,
                          <<WEAK, <<Line(pa, py), Line(pu, pe)>> >> >>
     [] ch = co     -> << <<MEDIUM, <<Circ(pm, 3, FALSE)>> >>, <<MEDIUM, <<Line(pk, po)>> >>, <<WEAK, <<Line(pc, pw)>> >>,
@@ -206,6 +210,13 @@ Rules(ch, N) ==
             <<N.l = cBQUOTE, <<Poly(<<pf, po, pp>>)>> >>,
             <<N.l = cDOT, <<Poly(<<pf, po, pp>>)>> >>,
             <<N.l = cGT, <<Poly(<<pf, po, pp>>)>> >> >>
+    [] ch = cHASH ->       \* deliberate omission: the diamond drawn for a diagonal neighbour (its vertices are the one
+                           \* non-dyadic constant of the tables, +-1.4 quarter steps); model-checking alphabets keep
+                           \* diagonal strokes away from '#'
+         << <<Med(N.t, pr, pw) \/ Med(N.b, pc, ph) \/ Med(N.l, pn, po) \/ Med(N.r, pk, pl), <<FilledBox(pf, pt)>> >>,
+            <<Med(N.t, pr, pw), <<Line(pc, ph)>> >>, <<Med(N.b, pc, ph), <<Line(pr, pw)>> >>,
+            <<Str(N.tl, ps, py), <<Line(pa, pg)>> >>, <<Str(N.tr, pu, pq), <<Line(pe, pi)>> >>,
+            <<Str(N.bl, pe, pi), <<Line(pu, pq)>> >>, <<Str(N.br, pa, pg), <<Line(ps, py)>> >> >>
     [] ch = cX ->
          << <<Str(N.l, pm, po), <<Line(pm, pk)>> >>, <<Str(N.r, pk, pl), <<Line(pm, po)>> >>,
             <<Str(N.t, pr, pw), <<Line(pm, pc)>> >>, <<Str(N.b, pc, ph), <<Line(pm, pw)>> >>,
